@@ -43,6 +43,10 @@ Record project := mkProject {
 
 Definition pj_prefix (P : project) : string := cf_prefix (pj_config P).
 
+(* export.rs:122-128: --export-dir wins over modelExportDir *)
+Definition resolve_export_dir (arg : option string) (cfg : config) : string :=
+  match arg with Some d => d | None => cf_export_dir cfg end.
+
 (* ------------------------------------------------------------------ loaders *)
 Inductive cli_error :=
 | ELoadModels (e : load_error)                       (* load_models: normalize / validate_schema *)
